@@ -12,15 +12,15 @@ type prop struct {
 	ThoroughTimeoutS int
 	// ThoroughScale multiplies the PRNG-determined case counts (and the per-batch timeout) of the thorough tier
 	ThoroughScale int
-	GoMaxProcs       []int // rotated over batches
-	Parallel         int   // children in flight
-	Level            string
-	LevelText        string
-	LevelNote        string
-	Technique        string
-	DesignRef        string
-	Rule             string
-	Assumptions      []string
+	GoMaxProcs    []int // rotated over batches
+	Parallel      int   // children in flight
+	Level         string
+	LevelText     string
+	LevelNote     string
+	Technique     string
+	DesignRef     string
+	Rule          string
+	Assumptions   []string
 }
 
 var commonAssumptions = []string{
